@@ -153,7 +153,9 @@ impl AssetCategorizer {
                         }
                     }
                 }
-            } else {
+            }
+            // a UTxO that carries no asset (no multiasset, or a multiasset without any asset) is a pure ADA UTxO
+            if !free_utxo_to_assets.contains_key(&current_utxo_index) {
                 free_ada_utxos.push((current_utxo_index.clone(), utxo.output.amount.coin.clone()));
             }
             current_utxo_num += 1;
